@@ -128,7 +128,7 @@ def make_fits(rng, shape, family="fits_sep", with_shape=True):
     rng.shuffle(lin)
     ctype, cunit, cdelt, crval, cname = [], [], [], [], []
     cel_at = None
-    if family in ("fits_cel", "fits_rot") and n >= 2:
+    if family in ("fits_cel", "fits_rot", "fits_cd", "fits_cel3") and n >= 2:
         cel_at = rng.randrange(n - 1)
     k = 0
     i = 0
@@ -141,9 +141,26 @@ def make_fits(rng, shape, family="fits_sep", with_shape=True):
             c = lin[k]; k += 1
             ctype.append(c[0]); cunit.append(c[1]); cdelt.append(c[2]); crval.append(c[3]); cname.append(c[4])
             i += 1
-    w.wcs.ctype, w.wcs.cunit, w.wcs.cdelt, w.wcs.crval = ctype, cunit, cdelt, crval
+    w.wcs.ctype, w.wcs.cunit, w.wcs.crval = ctype, cunit, crval
     w.wcs.crpix = [rng.choice([0, 1, 2, 1.5]) for _ in range(n)]
     w.wcs.cname = cname
+    if family == "fits_cd":
+        # the linear part written as a CDi_j matrix (rotation of the celestial pair included) instead of PCi_j + CDELTi
+        pc = np.eye(n)
+        if cel_at is not None:
+            th = np.deg2rad(rng.choice([30, 45, 60, -20]))
+            a, b = cel_at, cel_at + 1
+            pc[a, a], pc[a, b], pc[b, a], pc[b, b] = np.cos(th), -np.sin(th), np.sin(th), np.cos(th)
+        w.wcs.cd = np.diag(cdelt) @ pc
+    else:
+        w.wcs.cdelt = cdelt
+    if family == "fits_cel3" and cel_at is not None and n >= 3:
+        # the celestial pair also depends on a third pixel axis (a pointing that drifts along it): the correlation
+        # matrix is not block-diagonal and the celestial coordinate object has three array axes
+        pc = np.eye(n)
+        other = [i for i in range(n) if i not in (cel_at, cel_at + 1)][rng.randrange(n - 2)]
+        pc[cel_at, other] = 0.25
+        w.wcs.pc = pc
     if family == "fits_rot" and cel_at is not None:
         th = np.deg2rad(rng.choice([30, 45, 60, -20]))
         pc = np.eye(n)
@@ -179,7 +196,7 @@ def make_wcs(rng, shape, family, with_shape=True):
         return make_probe(rng, shape, with_shape, extra_world=True)
     if family == "probe_drop":
         return make_probe(rng, shape, with_shape, drop_world=True)
-    if family in ("fits_sep", "fits_cel", "fits_rot"):
+    if family in ("fits_sep", "fits_cel", "fits_rot", "fits_cd", "fits_cel3"):
         return make_fits(rng, shape, family, with_shape)
     if family == "fits_sliced":
         # an already-wrapped WCS with fewer pixel than world axes: a (rotated) celestial FITS WCS
